@@ -20,6 +20,7 @@ import SfntV.Proofs.OtlLookupRead
 import SfntV.Proofs.OtlCovRange
 import SfntV.Proofs.OtlInfoAdapter
 import SfntV.Proofs.OtlCodecs
+import SfntV.Proofs.OtlInfoGo
 
 namespace SfntV.Props.C08
 open SfntV SfntV.Otl
@@ -834,6 +835,36 @@ ligature lookup with a mark filtering set and a coverage-based context lookup. -
 theorem C08_gsub_info_roundtrip_nonvacuous :
     InfoA.InfoOk InfoA.gsubCodec 7 InfoA.exG ∧ ∃ b, InfoA.Info.encode InfoA.gsubCodec InfoA.exG = .ok b :=
   ⟨InfoA.exG_ok, InfoA.exG_encodes⟩
+
+/-! ## The model of `gtab.Read` itself: the Go lookup-list reader accepts what the encoder writes
+
+`LL.budgetOk sl` / `InfoA.BudgetOk I`: lookups + subtables ≤ 6000 (the budget of `readLookupList`). -/
+
+/-- Converse of `C08_readlookuplist_sound`: whatever the specification reader finds within the budget,
+the model of the Go reader accepts, with the same lookups. -/
+theorem C08_readlookuplist_accepts (b : Bytes) (extType : Nat) (sl : List LL.SpecLookup)
+    (h : LL.specRead b extType = some sl) (hb : LL.budgetOk sl) :
+    ∃ ls, LL.readLL b extType = .ok ls ∧ ls.map LL.toSpec = sl := by
+  obtain ⟨ls, h1, h2, _⟩ := LL.readLL_accept b extType sl h hb
+  exact ⟨ls, h1, h2⟩
+
+/-- `Info.readGo` = header + script list + feature list + `readLookupList` (Go reader model, the codec's
+decoder as subtable reader).  decode ∘ encode = nf for it, within the budget. -/
+theorem C08_info_roundtrip_go {σ : Type} (C : InfoA.SubCodec σ) (extType : Nat) (I : InfoA.Info σ)
+    (hI : InfoA.InfoOk C extType I) (hB : InfoA.BudgetOk I) (b : Bytes) (hb : InfoA.Info.encode C I = .ok b) :
+    InfoA.Info.readGo C extType b = .ok (InfoA.Info.nf C I) ∧
+    InfoA.Info.readGo C extType b = InfoA.Info.read C extType b :=
+  ⟨InfoA.info_roundtrip_go C extType I hI hB b hb, InfoA.readGo_eq_read C extType I hI hB b hb⟩
+
+theorem C08_gsub_info_roundtrip_go (I : InfoA.Info InfoA.GsubSub) (hI : InfoA.InfoOk InfoA.gsubCodec 7 I)
+    (hB : InfoA.BudgetOk I) (b : Bytes) (hb : InfoA.Info.encode InfoA.gsubCodec I = .ok b) :
+    InfoA.Info.readGo InfoA.gsubCodec 7 b = .ok (InfoA.Info.nf InfoA.gsubCodec I) :=
+  InfoA.info_roundtrip_go InfoA.gsubCodec 7 I hI hB b hb
+
+theorem C08_gpos_info_roundtrip_go (I : InfoA.Info InfoA.GposSub) (hI : InfoA.InfoOk InfoA.gposCodec 9 I)
+    (hB : InfoA.BudgetOk I) (b : Bytes) (hb : InfoA.Info.encode InfoA.gposCodec I = .ok b) :
+    InfoA.Info.readGo InfoA.gposCodec 9 b = .ok (InfoA.Info.nf InfoA.gposCodec I) :=
+  InfoA.info_roundtrip_go InfoA.gposCodec 9 I hI hB b hb
 
 /-! ## Post-condition of the subtable readers: coverage indices are in range
 
